@@ -1,0 +1,73 @@
+//go:build verif
+
+package kv
+
+import (
+	"os"
+
+	"github.com/lindb/lindb/kv/version"
+)
+
+// VerifSeams are the package-level I/O functions of the kv store (only compiled with -tags verif):
+// a verification harness wraps them to record file-system operations and crash images.
+type VerifSeams struct {
+	RemoveDir  func(path string) error
+	Remove     func(path string) error
+	ListDir    func(path string) ([]string, error)
+	MkDir      func(path string) error
+	EncodeToml func(fileName string, v interface{}) error
+	DecodeToml func(fileName string, v interface{}) error
+}
+
+// VerifGetSeams returns the current seam functions.
+func VerifGetSeams() VerifSeams {
+	return VerifSeams{RemoveDir: removeDirFunc, Remove: removeFunc, ListDir: listDirFunc, MkDir: mkDirFunc,
+		EncodeToml: encodeTomlFunc, DecodeToml: decodeTomlFunc}
+}
+
+// VerifSetSeams installs seam functions (nil fields keep the current function).
+func VerifSetSeams(s VerifSeams) {
+	if s.RemoveDir != nil {
+		removeDirFunc = s.RemoveDir
+	}
+	if s.Remove != nil {
+		removeFunc = s.Remove
+	}
+	if s.ListDir != nil {
+		listDirFunc = s.ListDir
+	}
+	if s.MkDir != nil {
+		mkDirFunc = s.MkDir
+	}
+	if s.EncodeToml != nil {
+		encodeTomlFunc = s.EncodeToml
+	}
+	if s.DecodeToml != nil {
+		decodeTomlFunc = s.DecodeToml
+	}
+}
+
+var _ = os.Remove
+
+// VerifStoreCompact runs the store's periodic job body (compaction/rollup checks + reader cache cleanup).
+func VerifStoreCompact(s Store) { s.compact() }
+
+// VerifFamilyWait waits until the family's background jobs and open flushers are done.
+func VerifFamilyWait(f Family) { f.close() }
+
+// VerifFamilyDeleteObsoleteFiles runs the family's obsolete file cleanup.
+func VerifFamilyDeleteObsoleteFiles(f Family) { f.deleteObsoleteFiles() }
+
+// VerifCloseStore closes a store opened with VerifNewStore.
+func VerifCloseStore(s Store) error { return s.close() }
+
+// VerifNewStore opens/creates a store without the process-wide store manager.
+func VerifNewStore(name, path string, option StoreOption) (Store, error) {
+	return newStore(name, path, option)
+}
+
+// VerifFamilyRollup triggers the family's rollup job.
+func VerifFamilyRollup(f Family) { f.rollup() }
+
+// VerifFamilyVersion returns the family's version bookkeeping object.
+func VerifFamilyVersion(f Family) version.FamilyVersion { return f.getFamilyVersion() }
